@@ -126,7 +126,7 @@ prop("C15", "Unbounded proof that a request reaches a route only after the sourc
 L = "(*log.FileIO)."
 prop("C18", "Unbounded proof of the transfer-log look-up: a day file answers yes only for a line that starts with exactly the name followed by the separator and carries ':hash:' behind it, and such a line always answers yes (string theory); the look-up asks for exactly name and hash; the window is walked in one-day steps from start until the cursor has passed the stop, forward and backward, and an empty window opens nothing; the records are written name-first with ':' separators; the log file is synced when required",
      "local-time / DST day arithmetic (24 h days assumed); concurrent writers (single writer goroutine, A1); Parse splits on ':' so names containing the separator shift the fields (not under contract: strings.Split is not modelled)",
-     {"(*log.rollingFile).each": None, "(*log.rollingFile).search$1": None, L+"wasWritten": None, L+"WasReceived": None, L+"WasSent": None, L+"Received": None, L+"Sent": None, "(*log.rollingFile).log": None})
+     {"(*log.rollingFile).each": None, "(*log.rollingFile).search$1": None, "(*log.rollingFile).search": None, "(*log.rollingFile).eachLine": None, "(*log.rollingFile).eachLine$1": None, L+"wasWritten": None, L+"WasReceived": None, L+"WasSent": None, L+"Received": None, L+"Sent": None, "(*log.rollingFile).log": None})
 # C02: cache and verdict codes; C17: store
 P["C02"]["functions"] += ["(*cache.cacheFile).IsDone", "(*cache.JSON).Get", "(*cache.JSON).add", "(*cache.JSON).Done", "(*cache.JSON).Remove", "(*http.confirmed).NotFound", "(*http.confirmed).Waiting", "(*http.confirmed).Failed", "(*http.confirmed).Received", H+"routeValidate"]
 for _p in ("C02", "C07", "C17"):
@@ -151,6 +151,38 @@ P["C06"]["labels"][S+"Recover"] = ["wait-body-is-finalized", "full-or-complete-i
 P["C04"]["functions"] += [B+"startRetry", "(*queue.Tagged).Pop"]
 P["C04"]["labels"][B+"startRetry"] = ["resend-keeps-prev"]
 P["C04"]["labels"]["(*queue.Tagged).Pop"] = ["placeholder-stays-predecessor", "prev-is-chain-predecessor", "no-self-reference"]
+
+# round 2 (third batch of seeded changes): functions the properties also rest on
+def _add(pid, fn, labels=None):
+    if fn not in P[pid]["functions"]:
+        P[pid]["functions"].append(fn)
+    if labels is not None:
+        cur = P[pid]["labels"].get(fn)
+        if fn in P[pid]["labels"] and cur is not None:
+            P[pid]["labels"][fn] = sorted(set(cur) | set(labels))
+        elif fn not in P[pid]["labels"] and fn in P[pid]["functions"][:-1]:
+            pass  # already claimed with all its labels
+        else:
+            P[pid]["labels"][fn] = labels
+for _p in ("C13", "C17"):
+    _add(_p, "(*marshal.NanoTime).UnmarshalJSON")
+_add("C13", "(marshal.NanoTime).MarshalJSON")
+_add("C15", "(*main.serverApp).init")
+_add("C02", S+"buildCache", ["log-refill-never-overwrites"])
+_add("C04", S+"buildCache", ["log-refill-never-overwrites"])
+_add("C04", S+"putFileAway", ["finalized-after-move", "error-means-not-finalized", "log-before-move"])
+for _p in ("C05", "C06"):
+    _add(_p, "(*log.rollingFile).each")
+    _add(_p, "(*log.rollingFile).eachLine")
+    _add(_p, "(*log.rollingFile).eachLine$1")
+_add("C07", "(*queue.Tagged).Pop", ["placeholder-stays-predecessor", "prev-is-chain-predecessor"])
+_add("C07", "(*client.recoverFile).Allocate")
+_add("C09", S+"initStageFile")
+_add("C09", S+"Prepare")
+_add("C20", S+"Receive", ["companion-removed-only-when-finalized", "duplicate-body-removed", "removes-only-own-files"])
+_add("C20", S+"Recover", ["orphan-companion-only", "only-complete-partials-are-renamed"])
+_add("C06", S+"Receive", ["companion-removed-only-when-finalized"])
+_add("C06", "stage.newLocalCompanion")
 
 os.makedirs(os.path.join(V, "props"), exist_ok=True)
 for pid, p in P.items():
